@@ -119,14 +119,45 @@ Fixpoint sm_run (s : wstate) (cs : list call) : list Z * bool :=
               end
   end.
 
-(* ---- case:  N ext falseAtom <encoded calls>  ; observation: written bytes (len-prefixed), ok flag, then the C07
-        observation of the reader (claspExt = ext) on those bytes ---- *)
+(* ---- a caller that catches the refusal and CONTINUES with the same writer ----
+   A refusal is a C++ exception thrown by POTASSCO_REQUIRE (or by AbstractProgram's default for unsupported directives).  No member
+   function writes anything before its last REQUIRE, so a refused call writes nothing; a member assigned BEFORE the failing REQUIRE
+   keeps the new value - the only such place is
+     initProgram(b):            inc_ = b;  REQUIRE(!inc_ || ext_)                         -> inc_ changed
+   (rule(ht, {}, bound, body) sets fHead_ only AFTER the recursive call on {false_} has written the rule: repaired in /repo d5c8ba1;
+   before, a refused weight rule with empty head left fHead_ set).  Every other refusal happens before any assignment. *)
+Definition sm_refused_state (s : wstate) (c : call) : wstate :=
+  match c with
+  | CInit inc => mkw (w_false s) (w_ext s) (w_sec s) inc (w_fhead s)
+  | _ => s
+  end.
+
+(* the whole history: text written, and for every call whether it was accepted *)
+Fixpoint sm_run_c (s : wstate) (cs : list call) : list Z * list bool :=
+  match cs with
+  | [] => ([], [])
+  | c :: r => match sm_step s c with
+              | WOk s1 t => let '(t2, fl) := sm_run_c s1 r in (t ++ t2, true :: fl)
+              | WErr => let '(t2, fl) := sm_run_c (sm_refused_state s c) r in (t2, false :: fl)
+              end
+  end.
+
+(* ---- case:  N e falseAtom <encoded calls>   e = 0/1: ext off/on, feeding stops at the first refusal;
+                                               e = 2/3: ext off/on, the caller catches every refusal and continues
+        observation: written bytes (len-prefixed), ok flag (all calls accepted), [continue mode: number of calls, one accepted flag per call,]
+        then the C07 observation of the reader (claspExt = ext) on those bytes ---- *)
 Definition run_case (c : list Z) : list Z :=
   match c with
   | _ :: e :: f :: r =>
-      let ext := negb (e =? 0) in
+      let cont := (e =? 2) || (e =? 3) in
+      let ext := if cont then e =? 3 else negb (e =? 0) in
       let cs := dec_calls (length r) r in
-      let '(t, ok) := sm_run (w_init ext f) cs in
-      Z.of_nat (length t) :: t ++ [b2z ok] ++ encode_result (read_smodels (mkopts ext false) t)
+      if cont then
+        let '(t, fl) := sm_run_c (w_init ext f) cs in
+        Z.of_nat (length t) :: t ++ [b2z (forallb (fun b => b) fl)] ++ Z.of_nat (length fl) :: map b2z fl ++
+        encode_result (read_smodels (mkopts ext false) t)
+      else
+        let '(t, ok) := sm_run (w_init ext f) cs in
+        Z.of_nat (length t) :: t ++ [b2z ok] ++ encode_result (read_smodels (mkopts ext false) t)
   | _ => []
   end.
